@@ -601,6 +601,7 @@ func checkAppendBytes(rep *Report, drv *Driver, script []string, muts []Mut, t *
 	// replay all mutations to know file sizes at each op
 	im := NewImage()
 	idx := 0
+	spec := specLog{}
 	for k, line := range script {
 		// advance image to the beginning of op k
 		for idx < len(muts) {
@@ -612,6 +613,51 @@ func checkAppendBytes(rep *Report, drv *Driver, script []string, muts []Mut, t *
 			idx++
 		}
 		f := strings.Fields(line)
+		specBefore := spec
+		spec = spec.apply(line)
+		if f[0] == "log.compact" {
+			// Compact rewrites the kept suffix into a temporary file with the same loop, from offset 0:
+			// the bytes must be the model's writeSeq [] kept (the theorem C12_compact_rewrites_exactly is about it)
+			ci, _ := strconv.ParseUint(f[1], 10, 64)
+			if ci <= specBefore.base || ci > specBefore.last() {
+				continue
+			}
+			var parts []string
+			for _, e := range specBefore.ents[ci-specBefore.base-1:] {
+				parts = append(parts, fmt.Sprintf("%d.%d.0.%d.%s", e.Index, e.Term, uint32(e.EntryType), hx(e.Data)))
+			}
+			ans, err := drv.Ask("WRITESEQ | 0 | " + strings.Join(parts, ";"))
+			if err != nil {
+				t.Fatal(err)
+			}
+			want := unhx(ParseKV(ans)["bytes"])
+			var got []byte
+			tmp := ""
+			seq := true
+			for _, m := range per[k] {
+				if m.Kind == "write" && m.Path != "log/log.bin" && strings.HasPrefix(m.Path, "log/") {
+					if tmp == "" {
+						tmp = m.Path
+					}
+					if m.Path != tmp || m.Off != int64(len(got)) {
+						seq = false
+					}
+					got = append(got, m.Data...)
+				}
+			}
+			renamed := false
+			for _, m := range per[k] {
+				if m.Kind == "rename" && m.Path == tmp && m.Path2 == "log/log.bin" {
+					renamed = true
+				}
+			}
+			rep.Hit("compact-bytes")
+			if !seq || !renamed || !bytes.Equal(got, want) {
+				rep.Add(Finding{Kind: "mismatch", Property: "C12", Case: "bytes of " + line + " on " + specBefore.String(), Impl: hx(got), Model: hx(want),
+					Diff: []string{fmt.Sprintf("compact wrote different bytes than the model's writeSeq of the kept entries, or not sequentially into one temporary file renamed over log.bin (sequential=%v renamed=%v)", seq, renamed)}})
+			}
+			continue
+		}
 		if f[0] != "log.append" {
 			continue
 		}
@@ -624,6 +670,20 @@ func checkAppendBytes(rep *Report, drv *Driver, script []string, muts []Mut, t *
 				t.Fatal(err)
 			}
 			want = append(want, unhx(ans)...)
+		}
+		{
+			var parts []string
+			for _, e := range parseSEnts(f[1]) {
+				parts = append(parts, fmt.Sprintf("%d.%d.0.%d.%s", e.Index, e.Term, uint32(e.EntryType), hx(e.Data)))
+			}
+			ans, err := drv.Ask(fmt.Sprintf("WRITESEQ | %d | %s", off, strings.Join(parts, ";")))
+			if err != nil {
+				t.Fatal(err)
+			}
+			if b := unhx(ParseKV(ans)["bytes"]); !bytes.Equal(b, want) {
+				rep.Add(Finding{Kind: "mismatch", Property: "C12", Case: "model writeSeq vs per-record encoding of " + line, Impl: hx(want), Model: hx(b),
+					Diff: []string{"the model's batch loop (writeSeq) and its per-record encoder disagree"}})
+			}
 		}
 		var got []byte
 		pos := off
